@@ -8,3 +8,11 @@ import CobraModel.Model.GPR
 import CobraModel.Lemmas.GPR
 import CobraModel.Props.C08
 import CobraModel.Driver.GPR
+import CobraModel.Model.Core
+import CobraModel.Lemmas.Core
+import CobraModel.Lemmas.SplitRange
+import CobraModel.Props.C01
+import CobraModel.Props.C02
+import CobraModel.Props.C03
+import CobraModel.Props.C07
+import CobraModel.Driver.Core
